@@ -160,8 +160,8 @@ def run(ctx):
     engine.install(need_parser=True)
     q = ctx.tier == "quick"
     with tempfile.TemporaryDirectory(prefix="c33_") as tmp:
-        v1 = check_generated(ctx, 60 if q else 1500, tmp)
-        v2 = check_corpus(ctx, 40 if q else 2300, tmp)
+        v1 = check_generated(ctx, 40 if q else 1500, tmp)
+        v2 = check_corpus(ctx, 30 if q else 2300, tmp)
     ctx.cov["rule"] = ("each generated script (exprk generator) is re-run on all row permutations of its inputs when every input has ≤ 3 rows "
                        "(capped at 40 combinations), on random row permutations + shuffled column orders as DataFrames and as CSV files; each "
                        "sampled corpus script on shuffled rows/columns of its CSV inputs (rows are not shuffled for scripts with analytic "
